@@ -492,7 +492,8 @@ def run(ctx):
             try:
                 got = norm(parse_datum(res[n])[0])
             except Exception as e:
-                ctx.broken("correspondence:unreadable-output", "case %r printed %r (%s)" % (c, res[n], e))
+                if done:        # (a process that died leaves a truncated last line: already reported as driver-died)
+                    ctx.broken("correspondence:unreadable-output", "case %r printed %r (%s)" % (c, res[n], e))
                 continue
             if c["kind"] == "load":
                 c["got"] = got
